@@ -168,7 +168,12 @@ func (f *fnode) stop(how string) (hung bool) {
 	case <-time.After(nodeRunBound):
 		hung = true
 	}
-	f.c.Tr.Emit("NodeRet", world.F{"node": f.name, "ms": int(time.Since(t0) / time.Millisecond), "hung": hung, "boundms": int(nodeRunBound / time.Millisecond)})
+	// calls into the execution layer that are still running although Run has returned: an activity that was not waited for
+	f.c.Tr.Emit("NodeRet", world.F{"node": f.name, "ms": int(time.Since(t0) / time.Millisecond), "hung": hung, "boundms": int(nodeRunBound / time.Millisecond),
+		"inflight": int(f.exec.InFlight.Load())})
+	if f.exec.FinalSlow > 0 {
+		time.Sleep(f.exec.FinalSlow + 200*time.Millisecond) // let a call that was left behind finish before the directory goes
+	}
 	if hung { // release whatever still waits so that the leaked goroutines end
 		f.cancel()
 		closeGate(f.exec.Gate)
@@ -221,24 +226,27 @@ type fnScenario struct {
 	gateFinal  bool   // hold the next SetFinal
 	how        string // cancel | execfail (a worker reports a fatal error by itself)
 	gateTxs    bool   // hold the mempool query of the reaper (GetTxs)
+	slowFinal  bool   // SetFinal takes 1.5 s and ignores its context; the stop request arrives while it runs
 }
 
 // RunFullNode runs every stop scenario once (quick) or three times with varied timing (thorough).
 func RunFullNode(c *Ctx) {
 	scen := []fnScenario{
-		{"agg/idle", true, false, false, "cancel", false},
-		{"agg/in-gettxs", true, false, false, "cancel", true},
-		{"agg/execfail-in-gettxs", true, false, false, "execfail", true},
-		{"agg/in-exec", true, true, false, "cancel", false},
-		{"agg/in-final", true, false, true, "cancel", false},
-		{"agg/in-exec+final", true, true, true, "cancel", false},
-		{"agg/execfail", true, false, false, "execfail", false},
-		{"agg/execfail-in-final", true, false, true, "execfail", false},
-		{"full/idle", false, false, false, "cancel", false},
-		{"full/in-exec", false, true, false, "cancel", false},
-		{"full/in-final", false, false, true, "cancel", false},
-		{"full/in-exec+final", false, true, true, "cancel", false},
-		{"full/execfail-in-final", false, false, true, "execfail", false},
+		{"agg/idle", true, false, false, "cancel", false, false},
+		{"agg/in-gettxs", true, false, false, "cancel", true, false},
+		{"agg/execfail-in-gettxs", true, false, false, "execfail", true, false},
+		{"agg/in-exec", true, true, false, "cancel", false, false},
+		{"agg/in-final", true, false, true, "cancel", false, false},
+		{"agg/in-exec+final", true, true, true, "cancel", false, false},
+		{"agg/execfail", true, false, false, "execfail", false, false},
+		{"agg/execfail-in-final", true, false, true, "execfail", false, false},
+		{"full/idle", false, false, false, "cancel", false, false},
+		{"full/in-exec", false, true, false, "cancel", false, false},
+		{"full/in-final", false, false, true, "cancel", false, false},
+		{"full/in-exec+final", false, true, true, "cancel", false, false},
+		{"full/execfail-in-final", false, false, true, "execfail", false, false},
+		{"agg/in-slow-final", true, false, false, "cancel", false, true},
+		{"full/in-slow-final", false, false, false, "cancel", false, true},
 	}
 	reps := 1
 	if c.Thorough() {
@@ -340,6 +348,9 @@ func runFNScenario(c *Ctx, run string, s fnScenario) {
 		if s.gateTxs {
 			e.TxsGate = tokens(3)
 		}
+		if s.slowFinal {
+			e.FinalSlow = 1500 * time.Millisecond
+		}
 	}
 	var target *fnode
 	if s.aggregator {
@@ -378,7 +389,10 @@ func runFNScenario(c *Ctx, run string, s fnScenario) {
 	if s.gateTxs {
 		ok = ok && target.waitGate("gettxs", 4, 15*time.Second)
 	}
-	if !holdExec && !s.gateFinal && !s.gateTxs {
+	if s.slowFinal {
+		ok = ok && target.waitGate("final", 1, 20*time.Second)
+	}
+	if !holdExec && !s.gateFinal && !s.gateTxs && !s.slowFinal {
 		ok = waitFor(15*time.Second, func() bool { return target.height() >= 3 })
 	}
 	if !ok { // the schedule could not be set up (not a verdict): stop and leave
